@@ -132,7 +132,7 @@ def scalar_inexact_cases(rng, x, dt, tag, n=4):
     import numpy as np
     from common import Case
     real = dt if dt != tn.complex128 else tn.float64
-    tol = 1e-5 if dt == tn.float32 else 1e-13
+    tol = 1e-5 if dt in (tn.float32, tn.complex64) else 1e-13
     vals = [0.1, math.pi, 1.0 / 3.0, -12345.678]
     forms = [("float", float), ("npfloat64", np.float64), ("tensor0d", lambda v: tn.tensor(v, dtype=real)), ("tensor1el", lambda v: tn.tensor([v], dtype=real))]
     if dt == tn.complex128:
